@@ -149,6 +149,14 @@ func runOne(sc *Scenario, prefix []int, trace bool) *ExecReport {
 	for _, p := range res.Panics {
 		x.Fail("panic/"+shortFunc(p.Func)+"/"+panicClass(p.Value), "panic in thread %d (%s): %s\n%s", p.Thread, p.Name, p.Value, trimStack(p.Stack))
 	}
+	if len(res.Threads) > 0 && res.Threads[0].State != "done" && len(res.Panics) == 0 && !res.Aborted && res.Err == "" {
+		// the scenario driver itself is stuck inside a synchronous call into the library
+		what := res.Threads[0].What
+		if i := strings.Index(what, " @"); i > 0 {
+			what = what[:i]
+		}
+		x.Fail("hang/driver-blocked/"+what, "the scenario driver never returned from a synchronous library call: blocked on %q; outcome so far: %s", res.Threads[0].What, strings.Join(x.outcome, " | "))
+	}
 	if res.Aborted {
 		x.Fail("livelock/step-horizon", "execution did not quiesce within %d scheduling steps", res.Steps)
 	}
